@@ -13,7 +13,7 @@ Has == l <= Len(Trace)
 
 Load(sc) ==
   /\ crecs = sc.crecs /\ brecs = sc.brecs /\ cutAt = sc.cutAt /\ cutKind = sc.cutKind
-  /\ firstIn = sc.firstIn /\ firstOut = sc.firstOut /\ accepted = sc.accepted /\ bigHdr \in BOOLEAN /\ (bigHdr \/ HasBig(sc.crecs))
+  /\ firstIn = sc.firstIn /\ firstOut = sc.firstOut /\ accepted = sc.accepted /\ tmoAt = sc.tmoAt /\ bigHdr \in BOOLEAN /\ (bigHdr \/ HasBig(sc.crecs))
 
 TraceInit == l = 2 /\ Load(Trace[1].scen) /\ InitState
 
@@ -37,9 +37,9 @@ ObsReset ==
   /\ Has /\ Ev.e = "reset" /\ Trace[l-1].e = "end"
   /\ LET sc == Ev.scen IN
      /\ crecs' = sc.crecs /\ brecs' = sc.brecs /\ cutAt' = sc.cutAt /\ cutKind' = sc.cutKind
-     /\ firstIn' = sc.firstIn /\ firstOut' = sc.firstOut /\ accepted' = sc.accepted /\ bigHdr' \in BOOLEAN /\ (bigHdr' \/ HasBig(sc.crecs))
+     /\ firstIn' = sc.firstIn /\ firstOut' = sc.firstOut /\ accepted' = sc.accepted /\ tmoAt' = sc.tmoAt /\ bigHdr' \in BOOLEAN /\ (bigHdr' \/ HasBig(sc.crecs))
      /\ tpos' = sc.firstIn /\ ri' = 1 /\ lo' = 0 /\ hi' = sc.firstOut /\ rErr' = "none" /\ outTotal' = sc.firstOut /\ outpos' = 0
-     /\ rPass' = ~sc.accepted /\ repl' = FALSE /\ lastRead' = [n |-> -1, err |-> "none"]
+     /\ rPass' = ~sc.accepted /\ repl' = FALSE /\ tmoDone' = FALSE /\ lastRead' = [n |-> -1, err |-> "none"]
      /\ wtaken' = 0 /\ wfwd' = 0 /\ bi' = 1 /\ wPass' = ~sc.accepted /\ armed' = FALSE /\ wErr' = FALSE
      /\ lastWrite' = [n |-> -1, err |-> "none"]
   /\ l' = l + 1
